@@ -260,7 +260,11 @@ def check(pm: ProgramModel, ctx: Ctx) -> None:
             if flt is not None:
                 it.call(pm.method(fmm, "only_these_metrics"), [op, flt])
             it.call(ex, [op, fm])
-            return it.call(gr, [op])
+            res = it.call(gr, [op])
+            if not isinstance(res, list) or not all(isinstance(e, dict) and {"name", "result", "size", "ratio"} <= set(e) for e in res):
+                odd = res if not isinstance(res, list) else next(e for e in res if not (isinstance(e, dict) and {"name", "result", "size", "ratio"} <= set(e)))
+                return ("raise", f"the report is not a list of metric entries (name / result / size / ratio): it holds {str(odd)[:80]}", "")
+            return res
         except AbsRaise as exc:
             return ("raise", exc.what, exc.where)
         except AbsMutation as exc:
@@ -299,6 +303,11 @@ def check(pm: ProgramModel, ctx: Ctx) -> None:
             for meth, what, wh in culprits:
                 ctx.violation("C17-TOTAL", f"raises:{meth}:{mname}", wh or where_cls,
                               f"metric {meth} raises on the well-formed model '{mname}': {what}")
+            continue
+        if not isinstance(rep, list) or not all(isinstance(e, dict) and {"name", "result", "size", "ratio"} <= set(e) for e in rep):
+            odd = rep if not isinstance(rep, list) else [e for e in rep if not (isinstance(e, dict) and {"name", "result", "size", "ratio"} <= set(e))][:2]
+            ctx.violation("C17-TOTAL", f"shape:{mname}", where_cls,
+                          f"the report of '{mname}' is not a list of metric entries (name / result / size / ratio): {str(odd)[:120]}")
             continue
         ctx.ok("C17-TOTAL", f"no-raise:{mname}", where_cls, f"report of '{mname}' is produced "
                f"({len(rep)} entries)")
@@ -423,10 +432,9 @@ def check(pm: ProgramModel, ctx: Ctx) -> None:
         second = it.call(calc, [op, models(mb)["one-child"]])
         it2 = Interp(pm, max_depth=60)
         fresh = it2.call(calc, [it2.eval_call_class(fmm), models(mb)["one-child"]])
-        same = [(a["name"], a["result"], a["size"], a["ratio"]) for a in second] == \
-               [(a["name"], a["result"], a["size"], a["ratio"]) for a in fresh]
-        diff = [a["name"] for a, b in zip(second, fresh) if (a["result"], a["size"], a["ratio"]) !=
-                (b["result"], b["size"], b["ratio"])]
+        entry = lambda a: (a["name"], a["result"], a["size"], a["ratio"]) if isinstance(a, dict) else ("not an entry", a)  # noqa: E731
+        same = [entry(a) for a in second] == [entry(a) for a in fresh]
+        diff = [entry(a)[0] for a, b in zip(second, fresh) if entry(a) != entry(b)]
     except (AbsRaise, AbsMutation) as exc:
         same, diff = False, [f"raises {exc.what}"]
     ctx.check(same, "C17-STATE", "caches-reassigned", loc(calc.unit.path, calc.node),
